@@ -1934,7 +1934,11 @@ impl TransactionBuilder {
                         let mut calc = MinOutputAdaCalculator::new_empty(data_cost)?;
                         calc.set_amount(&val);
                         let min_ada = calc.calculate_ada()?;
-                        amount_clone.set_coin(&min_ada);
+                        // the output may end up with all the ada that is left (it is added to the last change
+                        // output after the packing): the wider of the two coins decides the size
+                        if min_ada > amount_clone.coin {
+                            amount_clone.set_coin(&min_ada);
+                        }
 
                         Ok(amount_clone.to_bytes().len() > max_value_size as usize)
                     }
@@ -2040,7 +2044,10 @@ impl TransactionBuilder {
                             let mut calc = MinOutputAdaCalculator::new_empty(data_cost)?;
                             calc.set_amount(&val);
                             let min_ada = calc.calculate_ada()?;
-                            amount_clone.set_coin(&min_ada);
+                            // see will_adding_asset_make_output_overflow: the wider coin decides
+                            if min_ada > amount_clone.coin {
+                                amount_clone.set_coin(&min_ada);
+                            }
 
                             if amount_clone.to_bytes().len() > max_value_size as usize {
                                 output.amount = old_amount;
